@@ -157,6 +157,55 @@ func init() {
 			c04stats.Outcome(fmt.Sprintf("derived-profile:%v", want))
 		}, nil
 	}
+	// a derived profile that re-declares a base claim (same key) with its own, stricter accessor
+	Scenarios["c04.derived-profile-shadowing"] = func() (choice.Scenario, func() any) {
+		g := newCoarseGen(2, 2)
+		return func(c *choice.Ctx) {
+			a := g.gen(c, "")
+			if a.ProfileInvalid {
+				return
+			}
+			a.Canon = ExtShadowName
+			if a.Profile != nil && *a.Profile == refmodel.P2Name {
+				a.Profile = sp(ExtShadowName)
+			}
+			vs := []*string{sp("https://verifier.example"), nil, sp("http://verifier.example"), sp("x"), sp("")}[c.Choose("service-indicator", 5)]
+			a.VSI = vs
+			want := a.Valid() && (vs == nil || strings.HasPrefix(*vs, "https://"))
+			for _, js := range []bool{false, true} {
+				if js && (a.Profile == nil || *a.Profile != ExtShadowName) {
+					continue // a JSON document that does not declare this profile is another profile's document (the member names are shared)
+				}
+				var cl psatoken.IClaims
+				var err error
+				wire := mcbor.Encode(wireTree(a, true))
+				if js {
+					wire = wireJSON(a)
+					cl, err = psatoken.DecodeAndValidateClaimsFromJSON(wire)
+				} else {
+					cl, err = psatoken.DecodeAndValidateClaimsFromCBOR(wire)
+				}
+				c04stats.State(wire)
+				c04stats.Trans.Add(1)
+				tag := fmt.Sprintf("derived-profile-shadowing:json=%v", js)
+				switch {
+				case want && err != nil:
+					c.Failf("C04:rejected:"+tag, "token conforming to the registered derived profile rejected: %v\n%s", err, a.String())
+				case !want && err == nil:
+					why := "derived-profile-rule"
+					if !a.Valid() {
+						why = a.Check().String()
+					}
+					c.Failf("C04:accepted:"+tag+":"+why, "token violating the rules of the registered profile it declares was accepted (%T)\n%s", cl, a.String())
+				case want:
+					got, gerr := cl.GetVSI()
+					if vs == nil && gerr == nil || vs != nil && (gerr != nil || got != *vs) {
+						c.Failf("C04:fidelity:"+tag, "GetVSI() = %q, %v; on the wire: %v", got, gerr, vs)
+					}
+				}
+			}
+		}, nil
+	}
 	Checks["C04"] = func(r *evid.Run) {
 		registerStandardExt()
 		c04stats = NewStats()
@@ -166,6 +215,7 @@ func init() {
 			bound = 3
 		}
 		exploreChoice(r, "c04.derived-profile", bound, dl)
+		exploreChoice(r, "c04.derived-profile-shadowing", bound, dl)
 		for _, p := range []int{1, 2} {
 			exploreChoiceOpts(r, fmt.Sprintf("c04.after-prior-calls.p%d", p), 2, dl, 1)
 		}
